@@ -28,7 +28,7 @@ CMDS = ["create", "create-sf", "verify", "verify-dh", "diff", "info", "info-sf",
 
 
 def budget(tier):
-    return {"cases": 64, "seconds": 55} if tier == "quick" else {"cases": 3000, "seconds": 600}
+    return {"cases": 48, "seconds": 55} if tier == "quick" else {"cases": 3000, "seconds": 600}
 
 
 def _edit(rng, data, kind):
@@ -187,7 +187,56 @@ def run_case(cs):
         os.utime(p, ns=(st.st_atime_ns, st.st_mtime_ns))
         if os.path.isdir(dest):
             shutil.rmtree(dest)
+    # ---- tampering *while* a create run is in progress (after it has loaded and checked the history, before it commits):
+    # the run may or may not notice, but it must not launder the change: later commands still refuse with 31
+    if rng.random() < 0.5:
+        _tamper_during_create(cs, rng, d, area, root, dest, hists, files)
     cs.sample({"histories": hists, "faults": len(faults), "skeleton": skel})
+
+
+def _tamper_during_create(cs, rng, d, area, root, dest, hists, files):
+    import ascmhl.hashlist_xml_parser as HX
+
+    h = rng.choice(hists)
+    ms = world.manifests(root, h)
+    if not ms:
+        return
+    victim = os.path.join(hist.asc_dir(root, h), rng.choice(ms))
+    orig_write = HX.write_hash_list
+    state = {"done": False}
+
+    def hooked(hash_list, file_path):
+        if not state["done"]:
+            state["done"] = True
+            st = os.stat(victim)
+            with open(victim, "ab") as f:
+                f.write(b"\n<!-- edited while create was running -->\n")
+            os.utime(victim, ns=(st.st_atime_ns, st.st_mtime_ns))
+        return orig_write(hash_list, file_path)
+
+    HX.write_hash_list = hooked
+    try:
+        r0 = drive.run("create", [root, "-h", "md5"])
+    finally:
+        HX.write_hash_list = orig_write
+    if not state["done"]:
+        return
+    cs.count("tamper_during_create_cases")
+    for cmd, argv in (("verify", [root]), ("diff", [root]), ("info", [root]), ("create", [root, "-h", "md5"]), ("flatten", [root, dest])):
+        before = snap.snap(area)
+        r = drive.run(cmd, argv)
+        after = snap.snap(area)
+        cs.evaluated()
+        cs.count("fault_command_pairs")
+        cs.cls(cmd, "during-create", "n/a", "depth%d" % (0 if h == "." else h.count("/") + 1))
+        ctx = {"history": h, "file": os.path.basename(victim), "edit": "append-during-create", "cmd": cmd, "create_exit": r0.exit}
+        if r.internal:
+            cs.violation("tampered-history-internal-error", {"kind": "internal-error", "cmd": cmd, "exc": r.exc_class, "where": drive.exc_where(r.exc), "edit": "during-create", "nested": h != "."}, {**ctx, **r.brief()})
+        elif r.exit != 31:
+            cs.violation("tamper-not-refused", {"kind": "tamper-exit", "cmd": cmd, "exit": r.exit, "want": 31, "edit": "modify-during-create", "nested": h != ".", "position": "n/a"}, {**ctx, "out": r.text[-300:]})
+        if not snap.empty(snap.diff(before, after)):
+            cs.violation("refused-command-wrote", {"kind": "tamper-writes", "cmd": cmd, "audit": False, "snapshot": True}, ctx)
+            break
 
 
 def extra_coverage(merged):
